@@ -319,7 +319,10 @@ def value_strategy():
     scalars = st.one_of(st.none(), st.booleans(), ints, floats, texts, bins, exts)
     key_scalars = st.one_of(st.none(), st.booleans(), st.integers(-2 ** 63, 2 ** 64 - 1), st.integers(-5, 40),
                             st.floats(allow_nan=False), st.text(max_size=8), st.binary(max_size=8))
-    keys = st.one_of(key_scalars, st.lists(key_scalars, max_size=3).map(tuple))
+    # array keys decode to tuples, at every nesting level: {(1, (2, 3)): ...}
+    flat = st.lists(key_scalars, max_size=3).map(tuple)
+    nested = st.lists(st.one_of(key_scalars, flat), max_size=3).map(tuple)
+    keys = st.one_of(key_scalars, flat, nested, st.lists(nested, min_size=1, max_size=2).map(tuple))
 
     def extend(children):
         return st.one_of(st.lists(children, max_size=6),
